@@ -169,7 +169,6 @@ func (c *connection) stop() {
 		c.terminalEvent.OnLeaveEvent(c.key)
 		close(c.stopChan)
 		_ = c.conn.Close()
-		clear(c.handles)
 		// 其他协程可能还在往这些channel发送数据 关闭会导致send on closed channel
 		// 通过stopChan通知退出 channel由GC回收
 	})
